@@ -186,6 +186,23 @@ def halton_generator(args):
                 bad.append(ops.far(rows[i][j], lo + phi * (hi - lo), 1e-9) if not ctx.symbolic else
                            Or(rows[i][j] - (lo + phi * (hi - lo)) > 1e-12 * (hi - lo), (lo + phi * (hi - lo)) - rows[i][j] > 1e-12 * (hi - lo)))
         ctx.check('halton-point-is-scaled-radical-inverse', Or(*bad))
+        # a second design with the SAME sample count and parameter count but another box (another problem of the
+        # same study): again the scaled radical inverses -- nothing may be carried over from the first design
+        params_b, box_b = doecommon.sym_parameters(ctx, n, prefix='second_')
+        gb = O.HaltonGenerator(params_b)
+        gb.init(N)
+        rows_b = gb.generate()
+        ctx.check('halton-second-design-row-count', len(rows_b) != N or any(len(r) != n for r in rows_b))
+        if len(rows_b) == N and all(len(r) == n for r in rows_b):
+            i, j = N - 1, n - 1
+            lo, hi = box_b[j]
+            phi = float(_radical_inverse(i + 1, primes[j]))
+            ctx.check('halton-second-design-same-size-other-box', Or(rows_b[i][j] - (lo + phi * (hi - lo)) > 1e-9 * (hi - lo),
+                                                                     (lo + phi * (hi - lo)) - rows_b[i][j] > 1e-9 * (hi - lo)))
+            lo, hi = box_b[0]
+            phi = float(_radical_inverse(1, primes[0]))
+            ctx.check('halton-second-design-first-point', Or(rows_b[0][0] - (lo + phi * (hi - lo)) > 1e-9 * (hi - lo),
+                                                             (lo + phi * (hi - lo)) - rows_b[0][0] > 1e-9 * (hi - lo)))
         g.init(N + 2)             # re-initialised: a longer prefix of the same sequence
         rows2 = g.generate()
         ctx.check('halton-after-reinit', len(rows2) != N + 2 or any(len(r) != n for r in rows2))
